@@ -224,8 +224,11 @@ class Concretiser:
                 self.toks(it["supports"])
                 self.emit(")")
             self.toks(it["media"])
-            self.mark((key, "s"))
-            self.emit(";")
+            if it.get("semi", True):
+                self.mark((key, "s"))
+                self.emit(";")
+            elif self.rnd.random() < 0.5:
+                self.emit(self.rnd.choice([" ", "\n", " /* end */"]))
             self.mark((key, "e"))
             self.free_ws(0.4)
 
@@ -450,7 +453,8 @@ def check_srcmap(exp_seq, act_tokens, entries, pos, which, import_spans, name_ch
                 findings.append(("srcmap", which, "rewritten token %r carries no name (original spelling)" % a["text"]))
             elif name_checks is not None:
                 # the name must SPELL the source token: read as CSS it is that token again
-                name_checks.append((which, a["text"], [nm for nm in names if nm][0], e))
+                nen = [en for en in ens if en[4]][0]
+                name_checks.append((which, a["text"], nen[4], e, (nen[2], nen[3])))
     return findings
 
 
@@ -527,8 +531,9 @@ def evaluate(cases, rnd, ratios=(750,), multiline=True, variants=1, trace=None):
             rec["findings"] += check_srcmap(c["normal"], r["ntok"], r["nmap"], u["pos"], "normal", spans, nchecks)
         if ok2:
             rec["findings"] += check_srcmap(c["low"], r["ltok"], r["lmap"], u["pos"], "low", spans, nchecks)
+        ipos = {(t[4], t[5]): t for t in r.get("itok", [])}
         for x in nchecks:
-            pending_names.append((rec, x))
+            pending_names.append((rec, x + (ipos.get(x[4]),)))
         if trace is not None and "itok" in r:
             starts = outmap.src_starts(r["itok"])
             for which, okx, tk, mp in (("normal", ok1, "ntok", "nmap"), ("low", ok2, "ltok", "lmap")):
@@ -551,11 +556,18 @@ def evaluate(cases, rnd, ratios=(750,), multiline=True, variants=1, trace=None):
     if pending_names:
         uniq = sorted({x[2] for _, x in pending_names})
         tk = {n: r_.get("tok") for n, r_ in zip(uniq, vlib.run_vh("css", [{"id": i, "tokenize": n} for i, n in enumerate(uniq)], jobs=2))}
-        for rec, (which, text, name, e) in pending_names:
+        for rec, (which, text, name, e, spos, stok) in pending_names:
             toks = [t for t in (tk.get(name) or []) if t[0] != "ws"]
             ok = len(toks) == 1
             if ok and e["name"] == "rpx":
                 ok = toks[0][0] == "dim" and str((toks[0][1] or {}).get("unit", "")).lower() == "rpx"
+                if ok and stok is not None and stok[0] == "dim":
+                    # "the original spelling": read as CSS the name is the source token again - the same value, the same
+                    # unit letter for letter (75RPX is not 75rpx), the same explicit sign
+                    a_, b_ = toks[0][1], stok[1]
+                    if (a_.get("unit"), a_.get("sign")) != (b_.get("unit"), b_.get("sign")) or a_.get("v") != b_.get("v"):
+                        rec["findings"].append(("srcmap:name-respelled", which, "the name %r of the rewritten token %r is not the source token %r (unit %r / %r, value %r / %r)" % (
+                            name, text, stok[6], a_.get("unit"), b_.get("unit"), a_.get("v"), b_.get("v"))))
             elif ok:
                 ok = toks[0][0] == "ident" and toks[0][1] == e["name"]
             if not ok:
